@@ -501,6 +501,10 @@ def run_sep(case):
                 bad.append(('separated-linear', 'linear interpolator does not return the samples at the sample points (%s grid)' % cls))
         lines.append('C18 lin-sep new %s %s %s %s' % ('ext' if mode == 'ext' else 'fill', rat_lists(axes), rat_list(vals), rat_lists(pts)))
         cmps.append(('lin-sep', got, {'nan': 0.0 if mode == 'fill0' else None}))
+        if 'affine' in case:
+            # the field handed to the real interpolator is the model's `sampleAffine` (hypothesis of the affine theorems)
+            lines.append('C18 sample-affine %s %s %s' % (rat_lists(axes), rat(c0), rat_list(c)))
+            cmps.append(('sample-affine', list(vals), {}))
     # ---- nearest
     try:
         interp = hcipy.make_nearest_interpolator(field) if route == 'dispatch' else hcipy.make_nearest_interpolator_separated(field)
@@ -997,7 +1001,29 @@ def run_ss(case):
             bad.append(('supersampled-value', 'supersampled evaluation (%s, oversampling %r, coordinate scale %s) of a quadratic function differs from the mean over the dithered sub-pixels' % (case['stat'], arg, scale_label(case.get('S', 1.0)))))
     lines.append('C18 ss %s %s %s %s %s %s' % (case['stat'], rat(c0), rat_list(c), rat_list(q), rat_lists(axes), '[' + ','.join(str(n) for n in ns) + ']'))
     cmps.append(('ss', got, {}))
-    return bad, lines, cmps, {'affine': affine, 'dithers': cnt}
+    info = {'affine': affine, 'dithers': cnt}
+    if grid.is_regular:
+        # make_supersampled_grid on the same grid: its points must be the dithered sub-pixel positions
+        # x_i + delta * ((2j+1)/(2n) - 1/2)  (exact reference here; the model's `superAxis` through the op supergrid)
+        try:
+            sg = hcipy.make_supersampled_grid(grid, arg)
+            zero, delta, dims = [float(z) for z in grid.zero], [float(d) for d in grid.delta], [int(d) for d in grid.dims]
+            fine = [[float(v) for v in cc] for cc in sg.separated_coords]
+            okay = bool(sg.is_regular) and [int(d) for d in sg.dims] == [d * n for d, n in zip(dims, ns)] and len(fine) == nd
+            for k in range(nd if okay else 0):
+                want = [fr(zero[k]) + i * fr(delta[k]) + fr(delta[k]) * (Fraction(2 * j + 1, 2 * ns[k]) - Fraction(1, 2)) for i in range(dims[k]) for j in range(ns[k])]
+                err = cmp_vals(fine[k], want, scale=abs(delta[k]))
+                if err is None or err > TOL:
+                    okay = False
+            if not okay:
+                bad.append(('supersampled-grid-points', 'make_supersampled_grid(grid, %r) on a regular grid (coordinate scale %s) does not consist of the dithered sub-pixel positions of the grid' % (arg, scale_label(case.get('S', 1.0)))))
+            else:
+                lines.append('C18 supergrid %s %s %s %s' % (rat_list(zero), rat_list(delta), '[' + ','.join(str(d) for d in dims) + ']', '[' + ','.join(str(n) for n in ns) + ']'))
+                cmps.append(('supergrid', fine, {'scales': [abs(d) for d in delta]}))
+                info['supergrid'] = 1
+        except Exception as e:  # noqa
+            bad.append(('supersampled-grid-points', 'make_supersampled_grid raised %s: %s' % (type(e).__name__, str(e)[:80])))
+    return bad, lines, cmps, info
 
 
 
@@ -1542,6 +1568,7 @@ def check_case(ctx, case, all_lines, index):
         ctx.count('ss:dirs:' + dirs_of(case['axes']))
         ctx.count('ss:' + ('affine' if info.get('affine') else 'quadratic'))
         ctx.count('ss:dithers', info.get('dithers', 0))
+        ctx.count('ss:supersampled-grids-compared', info.get('supergrid', 0))
         sig = (fam, tuple(len(a) for a in case['axes']), tuple(case['ns']), case['stat'], info.get('affine'), case.get('S', 1.0))
     ctx.case({k: v for k, v in case.items() if k not in ('vals',)} if ctx.evaluations % 97 == 0 else None, nontrivial_key=sig)
     base = len(all_lines)
@@ -1604,6 +1631,13 @@ def compare_model(ctx, out, case, cmps, base, had_bad):
                 ctx.disagree('C18 near-uns', {'case': case, 'model': resp, 'impl': got})
                 return
             ctx.count('near-uns:ties', sum(1 for grp in groups if len(set(grp)) > 1))
+            continue
+        if stream == 'supergrid':
+            axes_m = [parse_vals(t) for t in body.split(';')]
+            errs = [cmp_vals(g, w, scale=sc) for g, w, sc in zip(got, axes_m, opt['scales'])] if len(axes_m) == len(got) else [None]
+            if any(e is None or e > TOL for e in errs):
+                ctx.disagree('C18 supergrid', {'case': case, 'model': resp, 'impl': got})
+                return
             continue
         if stream in ('lin-tri', 'lin-simplex'):
             want = [None if body == 'nan' else Fraction(body)]
